@@ -3,6 +3,7 @@ package runnersim
 import (
 	"encoding/json"
 	"fmt"
+	"strings"
 	"testing"
 	"testing/synctest"
 	"time"
@@ -275,11 +276,53 @@ func (w *world) exec(s sim.Step) {
 		w.addToPool(0, m, n == 1 || n >= w.quorum(), []int{int(s.Arg(0)) % w.n})
 	case "straggler":
 		w.straggler(int(s.Arg(0))%w.n, roles[int(s.Arg(1))%len(roles)])
+	case "equiv":
+		w.equivocate(int(s.Arg(0))%w.n, roles[int(s.Arg(1))%len(roles)])
 	case "blackout":
 		w.blackout(int(s.Arg(0))%w.n, roles[int(s.Arg(1))%len(roles)])
 	case "advance":
 		time.Sleep(time.Duration(s.Arg(0)) * time.Second)
 	}
+}
+
+// equivocate: a faulty round-1 leader sends operator v a proposal for ANOTHER valid value (the one v
+// itself would propose, so it passes v's own check) and withholds its real proposal from v; the others
+// go on with the real one. One faulty member: within the fault assumption.
+func (w *world) equivocate(v int, role spectypes.BeaconRole) {
+	st := w.ops[v].runners[role].GetBaseRunner().State
+	if st == nil || st.RunningInstance == nil {
+		return
+	}
+	inst := st.RunningInstance
+	if inst.State.Decided || inst.State.Round != 1 || inst.State.ProposalAcceptedForCurrentRound != nil || len(inst.StartValue) == 0 {
+		return
+	}
+	leader := specqbft.RoundRobinProposer(inst.State, 1)
+	if w.d.Cfg.Get("byz_mask", 0)&(1<<uint(leader-1)) == 0 || int(leader)-1 == v {
+		return
+	}
+	var drop []pend
+	for p := range w.pending {
+		if pm := w.pool[p.msg]; p.to == v && pm.role == role && pm.from == leader && pm.kind == "consensus" && strings.Contains(pm.desc, "/proposal ") {
+			drop = append(drop, p)
+		}
+	}
+	for _, p := range drop {
+		delete(w.pending, p)
+	}
+	root, err := specqbft.HashDataRoot(inst.StartValue)
+	if err != nil {
+		return
+	}
+	mid := msgID(w.ks, role)
+	sm := testingutils.SignQBFTMsg(w.ks.Shares[leader], leader, &specqbft.Message{MsgType: specqbft.ProposalMsgType, Height: inst.State.Height, Round: 1, Identifier: mid[:], Root: root})
+	sm.FullData = inst.StartValue
+	raw, err := sm.Encode()
+	if err != nil {
+		return
+	}
+	w.d.Fault("equivocating-leader")
+	w.addToPool(leader, &spectypes.SSVMessage{MsgType: spectypes.SSVConsensusMsgType, MsgID: mid, Data: raw}, false, []int{v})
 }
 
 // straggler: a deterministic macro step. Operator v falls behind: it decides the current duty of
